@@ -34,7 +34,7 @@ def single_specs():
     ]
     for ty, opt, H in itertools.product(types, (False, True), (4, 7)):
         d = ty.get("duration", ty.get("min_duration", 1) or 1)
-        for rel in (None, 0, 1, H - d, H - d + 1):
+        for rel in (None, 0, 1, H - d, H - d + 1, -2):      # (a job released before the origin still starts at >= 0)
             for due, dl in ((None, None), (d - 1, True), (d, True), (H, True), (d, False), (H + 1, True)):
                 t = dict(ty, name="t0")
                 if opt:
@@ -68,6 +68,8 @@ def steer_specs():
             t = dict(ty, name="t0")
             if opt:
                 t["optional"] = True
+            if q == "start" and direction == "min":
+                t["release_date"] = -3          # pulled early: the origin, not the release date, is the bound
             t2 = {"name": "t1", "type": "Fixed", "duration": 1}
             spec = {"problem": {"name": "P"}, "tasks": [t, t2], "constraints": [], "indicators": [
                 {"id": "q", "kind": "FromExpr", "name": "q", "expr": [q, "t0"]}],
